@@ -11,6 +11,7 @@ import json
 from vlib import common, histcheck, miri
 
 MODULE = "TriompheModel.Props.C03"
+EXTRA = ["TriompheModel.Props.C03Sched", "TriompheModel.Props.Gates"]
 TAGS = ["C03"]
 WEIGHTS = dict(isUnique=12, getMut=12, getUnique=8, tryUnique=10, tryUnwrap=6, writeSlot=10, cb=14, makeMut=6, clone=16, conv=14)
 PROGRAMS_QUICK = ["poll_get_mut_write"]
@@ -50,10 +51,9 @@ def schedule_search(ctx, prop, bad, lean_failed):
 
 def run(ctx):
     facts, res, bad = schedule_part(ctx, "C03", PROGRAMS_QUICK)
-    histcheck.run(ctx, MODULE, WEIGHTS, TAGS)
-    lean_failed = [n for n in ctx.failed_obligations() if n.startswith("lean:") and ("obl_" in n or "exclusive" in n)]
-    if (lean_failed or bad) and not any(v["kind"] == "miri" for v in ctx.violations):
-        schedule_search(ctx, "C03", bad, lean_failed)
+    histcheck.run(ctx, MODULE, WEIGHTS, TAGS, lean_extra=EXTRA)
+    if bad and not any(v["kind"] == "miri" for v in ctx.violations) and not getattr(ctx, "sched_handled", False):
+        schedule_search(ctx, "C03", bad, [])
 
 
 def replay(ctx, path):
